@@ -206,12 +206,47 @@ def r02e(ctx):
                        f"reads are served from the maps of the old content")
 
 
+def r02f(ctx):
+    """Each wrapper index is its own, fresh dictionary.
+
+    `_indexes[<map name>]` maps an item index to the cached wrapper of that row / cell / column.  Row, cell and column indexes are all keyed
+    0, 1, 2 …: if two of them are one dict object (a chained assignment `a = b = {}`, or an index assigned from another index), a read of
+    one kind is served wrappers of the other kind.  A reset that assigns anything but a new empty dict keeps stale wrappers alive.
+    Rule: every store into `<x>._indexes[key]` is a single-target assignment of an empty dict display.
+    """
+    repo = ctx.repo
+    ctx.rule("R02f", "every reset of a wrapper index assigns its own new empty dict (single target, `{}`)", floor=15)
+    n = 0
+    for f in repo.all_funcs():
+        if f.file not in ("src/odfdo/table.py", "src/odfdo/row.py", "src/odfdo/element_cached.py"):
+            continue
+        for a in walk_no_nested(f.node):
+            if not isinstance(a, ast.Assign):
+                continue
+            idx_targets = [t for t in a.targets if isinstance(t, ast.Subscript) and isinstance(t.value, ast.Attribute) and t.value.attr == "_indexes"]
+            if not idx_targets:
+                continue
+            n += 1
+            fresh = (isinstance(a.value, ast.Dict) and not a.value.keys) or (isinstance(a.value, ast.Call) and call_name(a.value) == "dict" and not a.value.args and not a.value.keywords)
+            single = len(a.targets) == 1
+            ok = fresh and single
+            ctx.instance("R02f", f"{f.file}:{f.ident}", f"{norm(a, 60)}: " + ("own new dict" if ok else ("shared by several targets" if not single else "not a new empty dict")),
+                         ok=ok, nontrivial=not ok, line=a.lineno)
+            if not ok:
+                why = "one dict object becomes the index of several item kinds (rows, cells and columns are all keyed from 0): a read of one kind returns wrappers of another" \
+                    if not single else "the index is not reset to a new empty dict: wrappers cached before the change stay reachable (or the dict is shared with its source)"
+                ctx.report("R02f", f, a, norm(a, 70), f"{f.ident}: {why}")
+    if n == 0:
+        raise AnalysisError("R02f: no wrapper-index reset found")
+
+
 def run(ctx):
     tom = run_tom(ctx.repo)
     r02ab(ctx, tom)
     r02c(ctx)
     r02d(ctx)
     r02e(ctx)
+    r02f(ctx)
 
 
 from ..selftest import Seed, unparse_seed  # noqa: E402
@@ -220,6 +255,12 @@ _T = "src/odfdo/table.py"
 _R = "src/odfdo/row.py"
 _EC = "src/odfdo/element_cached.py"
 SEEDS = [
+    Seed("rstrip resets both indexes with one chained assignment", "fault", _T,
+         '        # raz cache of columns\n        self._indexes["_cmap"] = {}\n        self._compute_table_cache()\n\n    def optimize_width',
+         '        self._indexes["_tmap"] = self._indexes["_cmap"] = {}\n        self._compute_table_cache()\n\n    def optimize_width', "R02f"),
+    Seed("row index reset to the column index", "fault", _T,
+         '        # raz cache of columns\n        self._indexes["_cmap"] = {}\n        self._compute_table_cache()\n\n    def optimize_width',
+         '        self._indexes["_cmap"] = {}\n        self._indexes["_tmap"] = self._indexes["_cmap"]\n        self._compute_table_cache()\n\n    def optimize_width', "R02f"),
     Seed("rstrip forgets _compute_table_cache", "fault", _T,
          "        # raz cache of columns\n        self._indexes[\"_cmap\"] = {}\n        self._compute_table_cache()\n\n    def optimize_width(",
          "        # raz cache of columns\n        self._indexes[\"_cmap\"] = {}\n\n    def optimize_width(", "R02a"),
